@@ -320,12 +320,16 @@ def run(ctx):
     wd = tlc.workdir_for("c19")
     tlc.sany(wd + "/SseWire.tla")
     full = frozenset({"LF", "CR", "OS", "CO", "SP", "CH"})
-    K1 = dict(MaxData=3 if ctx.tier == "quick" else 4, DataAlphabet=full, NameAlphabet=frozenset({"CH", "CO"}) if ctx.tier == "quick" else frozenset({"CH", "CO", "SP"}), Splitter="wire", MaxEvents=1, MaxPings=1, Retries=frozenset({0, 1, 2}))
+    K1 = dict(MaxData=3, DataAlphabet=full, NameAlphabet=frozenset({"CH", "CO"}) if ctx.tier == "quick" else frozenset({"CH", "CO", "SP"}), Splitter="wire", MaxEvents=1, MaxPings=1, Retries=frozenset({0, 1, 2}))
+    # thorough: data of four characters too, with the other dimensions at their smallest (the full product took TLC 21 minutes)
+    K1b = dict(K1, MaxData=4, NameAlphabet=frozenset({"CH"}), Retries=frozenset({0, 2}))
     K2 = dict(MaxData=1, DataAlphabet=frozenset({"LF", "CH", "OS"}), NameAlphabet=frozenset({"CH"}), Splitter="wire", MaxEvents=2 if ctx.tier == "quick" else 3, MaxPings=1,
               Retries=frozenset({0, 2}))
     ctx.bounds = {"single_events": {k: (sorted(v) if isinstance(v, frozenset) else v) for k, v in K1.items()},
                   "sequences": {k: (sorted(v) if isinstance(v, frozenset) else v) for k, v in K2.items()}}
     run_model(ctx, wd, "SseWire_single", K1, True)
+    if ctx.tier == "thorough":
+        run_model(ctx, wd, "SseWire_single_len4", K1b, True)
     run_model(ctx, wd, "SseWire_sequences", K2, True)
     # witness: str.splitlines as the splitter must break RoundTrip
     KW = dict(K1, MaxData=2, Splitter="py")
